@@ -78,10 +78,15 @@ class FnTrans:
         self.this_params = list(job.get("this_params", []))        # [(lean name, lean type)] appended to every signature
         self.params = []        # (cname, leanname, leantype, kind) kind in val|out
         self.defaults = []
+        self.alias = {}
+        body_ = [c for c in decl.get("inner", []) if c.get("kind") == "CompoundStmt"]
+        assigned_ = self.assigned_vars(body_[0], set()) if body_ else set()
         for p in decl.get("inner", []):
             if p.get("kind") != "ParmVarDecl": continue
             qt = p["type"]["qualType"]
             lt, kind = self.lean_type(qt, param=True)
+            if kind == "val" and qt.rstrip().endswith("&") and not qt.lstrip().startswith("const ") and p.get("name") in assigned_:
+                kind = "state"          # T& written by the function: returned as an extra result
             self.params.append((p["name"], self.fresh(p["name"]), lt, kind))
             dflt = [c for c in p.get("inner", []) if "Literal" in c.get("kind", "") or c.get("kind", "").endswith("Expr") or c.get("kind") == "UnaryOperator"]
             self.defaults.append(dflt[0] if dflt else None)
@@ -240,7 +245,7 @@ class FnTrans:
         while lhs.get("kind") in ("ParenExpr", "ImplicitCastExpr"): lhs = lhs["inner"][0]
         k = lhs.get("kind")
         if k == "DeclRefExpr" and lhs["referencedDecl"]["kind"] in ("ParmVarDecl", "VarDecl"):
-            return lhs["referencedDecl"]["name"], []
+            return self.alias.get(lhs["referencedDecl"]["name"], lhs["referencedDecl"]["name"]), []
         if k == "ArraySubscriptExpr":
             r = self.lvalue_path(lhs["inner"][0])
             return None if r is None else (r[0], r[1] + [("idx", lhs["inner"][1])])
@@ -274,10 +279,16 @@ class FnTrans:
             if kind == "idx":
                 it, ity, ip = self.expr(a, env)
                 c, ety = self.elem_type(cty)
+                if c == "List" and ity == "Nat":
+                    pres.extend([ip, "decide (%s < %s.length)" % (it, cur)])
+                    return "(%s.set %s %s)" % (cur, it, upd("(%s.getD %s default)" % (cur, it), ety, accs[1:]))
                 if c != "Array" or ity != "Nat": raise Unsupported("%s: element assignment into %s[%s]" % (self.name, cty, ity))
                 pres.extend([ip, "decide (%s < %s.size)" % (it, cur)])
                 return "(aset %s %s %s)" % (cur, it, upd("(aget %s %s)" % (cur, it), ety, accs[1:]))
+            if cty == "List Pt" and a == "ps": return upd(cur, cty, accs[1:])       # Polygon::ps of a polygon modelled as its point list
             fty = self.job.get("fields", {}).get((cty, a))
+            if cty == "Pt" and a in ("x", "y"): fty = "Rat"
+            if isinstance(fty, tuple): a, fty = fty
             if fty is None: raise Unsupported("%s: assignment to field %s of %s" % (self.name, a, cty))
             return "{ %s with %s := %s }" % (cur, a, upd("%s.%s" % (cur, a), fty, accs[1:]))
         newv = upd(env[root]["lean"], env[root]["type"], accs)
@@ -422,7 +433,7 @@ class FnTrans:
             return ("true" if n["value"] else "false"), "Bool", None
         if k == "DeclRefExpr":
             rd = n["referencedDecl"]
-            nm = rd["name"]
+            nm = self.alias.get(rd["name"], rd["name"])
             if rd["kind"] in ("ParmVarDecl", "VarDecl"):
                 if nm in env and env[nm].get("iter"): raise Unsupported("%s: iterator %s used other than through * / ->" % (self.name, nm))
                 if nm in env: return env[nm]["lean"], env[nm]["type"], None
@@ -522,10 +533,15 @@ class FnTrans:
             if op in ("+", "-", "*", "/"):
                 if ta != tb: raise Unsupported("%s: mixed arithmetic %s %s %s" % (self.name, ta, op, tb))
                 if op == "/" and ta != "Rat": raise Unsupported("%s: integer division" % self.name)
+                if op == "-" and ta == "Nat" and self.job.get("nat_sub_checked"):
+                    # unsigned subtraction wraps in C++, Nat subtraction truncates: equal iff there is no wrap-around (an obligation)
+                    return "(%s - %s)" % (a, b), ta, self.conj(pa, pb, "decide (%s ≤ %s)" % (b, a))
                 return "(%s %s %s)" % (a, op, b), ta, self.conj(pa, pb)
             if op in ("|", "&"):
                 if ta != "Nat" or tb != "Nat": raise Unsupported("%s: bit operator on %s" % (self.name, ta))
                 return "(%s %s %s)" % (a, {"|": "|||", "&": "&&&"}[op], b), "Nat", self.conj(pa, pb)
+            if op == "%" and ta == "Int" and tb == "Int":
+                return "(Int.tmod %s %s)" % (a, b), ta, self.conj(pa, pb, "decide (%s ≠ 0)" % b)      # C++ % truncates toward zero
             if op == "%":
                 if ta != "Nat" or tb != "Nat": raise Unsupported("%s: %% on %s" % (self.name, ta))
                 return "(%s %% %s)" % (a, b), ta, self.conj(pa, pb)
@@ -717,7 +733,7 @@ class FnTrans:
     def lvalue_name(self, lhs):
         """name of the variable / state member an lvalue expression denotes, else None"""
         while lhs.get("kind") in ("ParenExpr", "UnaryOperator", "ImplicitCastExpr"): lhs = lhs["inner"][0]
-        if lhs.get("kind") == "DeclRefExpr": return lhs["referencedDecl"]["name"]
+        if lhs.get("kind") == "DeclRefExpr": return self.alias.get(lhs["referencedDecl"]["name"], lhs["referencedDecl"]["name"])
         if lhs.get("kind") in ("ArraySubscriptExpr", "CXXOperatorCallExpr", "MemberExpr"):
             lp = self.lvalue_path(lhs)
             if lp is not None and lp[1]: return lp[0]
@@ -760,7 +776,12 @@ class FnTrans:
         if k == "UnaryOperator" and n.get("opcode") in ("++", "--"):
             t = n["inner"][0]
             while t.get("kind") in ("ParenExpr",): t = t["inner"][0]
-            if t.get("kind") == "DeclRefExpr": acc.add(t["referencedDecl"]["name"])
+            if t.get("kind") == "DeclRefExpr": acc.add(self.alias.get(t["referencedDecl"]["name"], t["referencedDecl"]["name"]))
+        if k == "VarDecl" and n.get("type", {}).get("qualType", "").rstrip().endswith("&") and not n["type"]["qualType"].lstrip().startswith("const "):
+            # T& r = v;  r is another name for v: what is assigned through r is assigned to v (needed before `block` sees the declaration)
+            init_ = [c for c in n.get("inner", []) if isinstance(c, dict)]
+            lp_ = self.lvalue_path(init_[0]) if init_ else None
+            if lp_ is not None: self.alias.setdefault(n["name"], lp_[0])
         for c in n.get("inner", []):
             if isinstance(c, dict): self.assigned_vars(c, acc)
         return acc
@@ -875,6 +896,16 @@ class FnTrans:
             lets, pres = [], []
             for d in s["inner"]:
                 if d.get("kind") != "VarDecl": raise Unsupported("%s: decl %s" % (self.name, d.get("kind")))
+                qt_ = d["type"]["qualType"]
+                if qt_.rstrip().endswith("&") and not qt_.lstrip().startswith("const "):
+                    # T& r = <lvalue>: r is an alias. Supported when the lvalue is a variable, possibly through members that the
+                    # type map makes the identity (Polygon::ps with Polygon = List Pt)
+                    init_ = [c for c in d.get("inner", []) if isinstance(c, dict)]
+                    lp_ = self.lvalue_path(init_[0]) if init_ else None
+                    if lp_ is None or lp_[0] not in env or any(not (a_[0] == "field" and a_[1] == "ps" and env[lp_[0]]["type"] == "List Pt") for a_ in lp_[1]):
+                        raise Unsupported("%s: reference %s to something other than a whole variable" % (self.name, d["name"]))
+                    self.alias[d["name"]] = lp_[0]
+                    continue
                 lt = self.lean_type(d["type"]["qualType"])[0]
                 lt = self.job.get("var_types", {}).get(d["name"], lt)
                 ln = self.fresh(d["name"])
@@ -1244,7 +1275,7 @@ class FnTrans:
     def vars_read(self, n, acc=None):
         acc = set() if acc is None else acc
         if n.get("kind") == "DeclRefExpr" and n.get("referencedDecl", {}).get("kind") in ("ParmVarDecl", "VarDecl"):
-            acc.add(n["referencedDecl"]["name"])
+            acc.add(self.alias.get(n["referencedDecl"]["name"], n["referencedDecl"]["name"]))
         if n.get("kind") == "CXXThisExpr": acc.add("this")
         for c in n.get("inner", []):
             if isinstance(c, dict): self.vars_read(c, acc)
@@ -1623,7 +1654,13 @@ def run_job(job, repo):
                               imports="\n".join("import " + i for i in job.get("imports", [])),
                               opens="\n".join("open " + o for o in job.get("opens", [])))
         return head + text + "end %s\n" % job["ns"], known
-    text, known = run_job_body(job, repo, dict(job.get("known", {})))
+    known0 = dict(job.get("known", {}))
+    for dep in job.get("known_from", []):
+        # functions of another job that this one calls: translated again only to learn their signatures (text discarded);
+        # the generated file imports / opens that job's namespace
+        _, kdep = run_job(dep, repo)
+        known0.update(kdep)
+    text, known = run_job_body(job, repo, known0)
     head = PRELUDE.format(src=job["src"], ns=job["ns"],
                           imports="\n".join("import " + i for i in job.get("imports", [])),
                           opens="\n".join("open " + o for o in job.get("opens", [])))
